@@ -220,6 +220,26 @@ class InputsMachine(Machine):
         t['flux'] = np.array([s[2] * 10 for s in srcs])
         t.meta['origin'] = 'caller'
         P['init'] = t
+        # the same start values under the other accepted spellings: the
+        # canonical names of a result table fed back in (with and without a
+        # flux column), and the names a finder / catalog produces
+        for key, (xn, yn, fn) in (('init_canon', ('x_init', 'y_init',
+                                                  'flux_init')),
+                                  ('init_canon_xy', ('x_init', 'y_init',
+                                                     None)),
+                                  ('init_cen', ('xcentroid', 'ycentroid',
+                                                'flux_0')),
+                                  ('init_peak', ('x_peak', 'y_peak', None))):
+            tt = Table()
+            tt[xn] = P['xpos'] + 0.2
+            tt[yn] = P['ypos'] - 0.1
+            if fn:
+                tt[fn] = np.array([s[2] * 10 for s in srcs])
+            P[key] = tt
+        # box sizes / border widths handed over as integer ndarrays, one
+        # element larger than the image (it is clipped)
+        P['pair_arr'] = np.array([10, 500])
+        P['pair_arr2'] = np.array([7, 99], dtype=np.int32)
         t2 = Table()
         t2['x_0'] = P['xpos'].copy()
         t2['y_0'] = P['ypos'].copy()
@@ -529,8 +549,9 @@ class InputsMachine(Machine):
         P = st.P
         v = op['variant']
         out = self._run(st, op, lambda: Background2D(
-            data, [tuple(data.shape), (10, 8), 7, (10, data.shape[1]),
-                   (data.shape[0], 8), (15, 16)][v],
+            data, P['pair_arr'] if op.get('opt', 0) == 7 else
+            [tuple(data.shape), (10, 8), 7, (10, data.shape[1]),
+             (data.shape[0], 8), (15, 16)][v],
             mask=mask,
             coverage_mask=P['coverage'] if v in (1, 4) else None,
             filter_size=[3, 1, (3, 5), 3][op.get('opt', 0) % 4],
@@ -565,6 +586,10 @@ class InputsMachine(Machine):
         if fn in (centroid_1dg, centroid_2dg):
             e = None if error is None else error[ys, xs]
             return self._run(st, op, lambda: fn(cut, error=e, mask=m))
+        if fn is centroid_quadratic and op.get('opt', 0) >= 5:
+            return self._run(st, op, lambda: fn(
+                cut, mask=m, fit_boxsize=P['pair_arr2'][::-1] if op[
+                    'opt'] == 5 else 5, search_boxsize=P['pair_arr2']))
         return self._run(st, op, lambda: fn(cut, mask=m))
 
     def _s_centroid_sources(self, st, op, data, mask, error):
@@ -593,7 +618,8 @@ class InputsMachine(Machine):
         return self._run(st, op, lambda: find_peaks(
             data, thr, box_size=5, footprint=P['footprint'] if v == 3
             else None, mask=mask, centroid_func=centroid_com if v == 2
-            else None, border_width=[None, 2, (1, 3), None, 0, 4][v],
+            else None, border_width=P['pair_arr2']
+            if op.get('opt', 0) == 7 else [None, 2, (1, 3), None, 0, 4][v],
             npeaks=3 if v == 5 else np.inf))
 
     def _s_starfinder(self, st, op, data, mask, error):
@@ -1219,7 +1245,10 @@ class InputsMachine(Machine):
             ph = pp.PSFPhotometry(model, 5, aperture_radius=4,
                                   grouper=pp.SourceGrouper(4)
                                   if op.get('opt', 0) % 2 else None)
-            t = ph(data, mask=mask, error=error, init_params=P['init'])
+            init = P[['init', 'init_canon', 'init_canon_xy', 'init_cen',
+                      'init_peak', 'init', 'init_canon', 'init_canon_xy'][
+                          op.get('opt', 0)]]
+            t = ph(data, mask=mask, error=error, init_params=init)
             return t, ph.make_model_image((30, 32))
         return self._run(st, op, fn)
 
